@@ -442,8 +442,9 @@ def shard(ctx):
                 k += 1
             # find the source line of the k-th PRINT
             r.fail("C13:value", "output line %d: expected %r, got %r | program:\n%s" % (k + 1, expected[k] if k < len(expected) else None, got[k] if k < len(got) else None, src[:2500]), case)
-        elif len(r.samples) < 2 and len(feats) >= 5 and len(src) < 900:
-            r.sample({"program": src, "stdout": rep["run"]["stdout"]})
+        elif len(r.samples) < 2 and (len(feats) >= 5 or not r.samples):
+            keep = [l for l in src.split("\n") if not l.strip().upper().startswith('PRINT "D"')]
+            r.sample({"program_without_the_dump_lines": "\n".join(keep)[:1500], "stdout_head": rep["run"]["stdout"][:400], "features": sorted(feats)})
     w.close()
     return r
 
